@@ -35,6 +35,11 @@ def cioObj := "io.sys.unix.cancel.CancelIoImpl.0"
 def cstObj := "cancel.state"
 def durObj := "sync.atomic_dur.AtomicDuration.0"
 
+/-- instance of a coroutine's cancel data (`cancel.state`, `CancelIoImpl`): NOT unified with the trace token. The canonicaliser
+    numbers these objects by address and a coroutine handle (a thread's proxy coroutine above all) is freed and its address reused
+    by a later coroutine within one scenario; who the canceller's victim is comes from the `victims` table -/
+def cinst (_c : Co) : Option (String × Nat) := none
+
 def optCo : Option Co → LArg
   | none => .num (-1)
   | some _ => .ne (-1)
@@ -49,10 +54,10 @@ def label (st : St) (a : Actor) (e : Env) : Label :=
     | .sys s _, .sysDone n _ => { obj := flagObj, inst := sk s, op := "sys", res := .num n }
     | .dur _, .durv ms => { obj := durObj, op := "load", res := .num ms, ord := "Relaxed" }
     | .chk s, _ => { obj := flagObj, inst := sk s, op := "load", res := .num (st.flag s), ord := "Relaxed" }
-    | .pre _, _ => if st.isCo c then { obj := cstObj, inst := some ("cst", c), op := "load", res := .num (b2i (st.cbit c)), ord := "Acquire" }
+    | .pre _, _ => if st.isCo c then { obj := cstObj, inst := cinst c, op := "load", res := .num (b2i (st.cbit c)), ord := "Acquire" }
                    else { kind := "silent", op := "yield" }
-    | .back _, _ => { obj := cstObj, inst := some ("cst", c), op := "load", res := .num (b2i (st.cbit c)), ord := "Acquire" }
-    | .clear _, _ => { obj := cioObj, inst := some ("cio", c), op := "opt.take",
+    | .back _, _ => { obj := cstObj, inst := cinst c, op := "load", res := .num (b2i (st.cbit c)), ord := "Acquire" }
+    | .clear _, _ => { obj := cioObj, inst := cinst c, op := "opt.take",
                        res := match st.cio c with | none => .num (-1) | some s => .id "sock" s }
     | .store s, _ => { obj := flagObj, inst := sk s, op := "store", a1 := .num 0, ord := "Relaxed" }
     | _, .delTimer s => { obj := flagObj, inst := sk s, op := "t.disarm", a1 := .num 1 }
@@ -65,15 +70,19 @@ def label (st : St) (a : Actor) (e : Env) : Label :=
     | .store s _ _ => { obj := coObj, inst := sk s, op := "opt.store", a1 := .ne (-1) }
     | .load s _ _ => { obj := flagObj, inst := sk s, op := "load", res := .num (st.flag s), ord := "Acquire" }
     | .take s => { obj := coObj, inst := sk s, op := "opt.take", res := optCo (st.slot s) }
-    | .dis s _ => (match st.tslot s with
-        | some _ => { obj := flagObj, inst := sk s, op := "t.disarm", a1 := .num 0 }
-        | none => { kind := "silent", op := "dis-skip" })
-    | .reg s c => { obj := cioObj, inst := some ("cio", c), op := "opt.store", a1 := .id "sock" s }
-    | .chk c => { obj := cstObj, inst := some ("cst", c), op := "load", res := .num (b2i (st.cbit c)), ord := "Acquire" }
-    | .xor c => { obj := cstObj, inst := some ("cst", c), op := "fetch_or", a1 := .num 1, res := .num (b2i (st.cbit c)), ord := "Release" }
-    | .xio c => { obj := cioObj, inst := some ("cio", c), op := "opt.take",
+    -- (the timer handle cell is a RefCell, `t.set` / `t.fire` are logged next to – not atomically with – its accesses: when the
+    -- timer fires while the handle is being stored, the model's idea of "handle present" can be off by one; the replay therefore
+    -- accepts the disarm event, or its absence, whatever the model's `tslot` says)
+    | .dis s _ => { obj := flagObj, inst := sk s, op := "t.disarm", a1 := .num 0 }
+    | .reg s c => { obj := cioObj, inst := cinst c, op := "opt.store", a1 := .id "sock" s }
+    | .chk c => { obj := cstObj, inst := cinst c, op := "load", res := .num (b2i (st.cbit c)), ord := "Acquire" }
+    | .xor c => { obj := cstObj, inst := cinst c, op := "fetch_or", a1 := .num 1, res := .num (b2i (st.cbit c)), ord := "Release" }
+    | .xio c => { obj := cioObj, inst := cinst c, op := "opt.take",
                   res := match st.cio c with | none => .num (-1) | some s => .id "sock" s }
-    | .xtake s => { obj := coObj, inst := sk s, op := "opt.take", res := optCo (st.slot s) }
+    | .xtake s | .own s => { obj := coObj, inst := sk s, op := "opt.take", res := optCo (st.slot s) }
+    | .reg0 s c _ => { obj := cioObj, inst := cinst c, op := "opt.store", a1 := .id "sock" s }
+    | .chk2 _ c => { obj := cstObj, inst := cinst c, op := "load", res := .num (b2i (st.cbit c)), ord := "Acquire" }
+    | .ownDis s _ => { obj := flagObj, inst := sk s, op := "t.disarm", a1 := .num 0 }
     | .off => { kind := "silent", op := "-" }
   | .w i =>
     match st.wpc i, e with
@@ -81,12 +90,11 @@ def label (st : St) (a : Actor) (e : Env) : Label :=
     | .idle, .fire t => (match st.tm t with
         | .armed s => { obj := flagObj, inst := sk s, op := "t.fire" }
         | _ => { kind := "note", op := "io_timer", a1 := .any })
-    | .idle, .cancel c => { obj := cstObj, inst := some ("cst", c), op := "fetch_or", a1 := .num 1, res := .num (b2i (st.cbit c)), ord := "Release" }
+    | .idle, .cancel c => { obj := cstObj, inst := cinst c, op := "fetch_or", a1 := .num 1, res := .num (b2i (st.cbit c)), ord := "Release" }
+    | .fOr s _, _ => { obj := flagObj, inst := sk s, op := "fetch_or", a1 := .num timeoutBit, res := .num (st.flag s), ord := "Release" }
     | .sTake s, _ | .fTake s _, _ | .xtake s, _ => { obj := coObj, inst := sk s, op := "opt.take", res := optCo (st.slot s) }
-    | .sDis s _, _ => (match st.tslot s with
-        | some _ => { obj := flagObj, inst := sk s, op := "t.disarm", a1 := .num 0 }
-        | none => { kind := "silent", op := "dis-skip" })
-    | .xio c, _ => { obj := cioObj, inst := some ("cio", c), op := "opt.take",
+    | .sDis s _, _ => { obj := flagObj, inst := sk s, op := "t.disarm", a1 := .num 0 }
+    | .xio c, _ => { obj := cioObj, inst := cinst c, op := "opt.take",
                      res := match st.cio c with | none => .num (-1) | some s => .id "sock" s }
     | _, _ => { kind := "silent", op := "-" }
   | .env => { kind := "silent", op := "env" }
@@ -98,8 +106,10 @@ def upcName : UPc → String
 def kpcName : KPc → String
   | .off => "k.off" | .start .. => "k.start" | .set .. => "k.set" | .store .. => "k.store" | .load .. => "k.load" | .take _ => "k.take"
   | .dis .. => "k.dis" | .reg .. => "k.reg" | .chk _ => "k.chk" | .xor _ => "k.xor" | .xio _ => "k.xio" | .xtake _ => "k.xtake"
+  | .reg0 .. => "k.reg0" | .chk2 .. => "k.chk2" | .own _ => "k.own" | .ownDis .. => "k.ownDis"
 def wpcName : WPc → String
-  | .idle => "w.idle" | .sTake _ => "w.sTake" | .sDis .. => "w.sDis" | .fTake .. => "w.fTake" | .xio _ => "w.xio" | .xtake _ => "w.xtake"
+  | .idle => "w.idle" | .sTake _ => "w.sTake" | .sDis .. => "w.sDis" | .fOr .. => "w.fOr" | .fTake .. => "w.fTake" | .xio _ => "w.xio"
+  | .xtake _ => "w.xtake"
 
 /-- transition name for coverage: pc plus the branch taken -/
 def transName (st : St) (a : Actor) (e : Env) : String :=
@@ -115,8 +125,8 @@ def transName (st : St) (a : Actor) (e : Env) : String :=
       | _, _ => "")
   | .k i => kpcName (st.kpc i) ++ (match st.kpc i with
       | .load s _ r => if st.flag s ≠ 0 then "/fast" else if r then "/reg" else "/end"
-      | .take s | .xtake s => if (st.slot s).isSome then "/some" else "/none"
-      | .chk c => if st.cbit c then "/canceled" else "/ok"
+      | .take s | .xtake s | .own s => if (st.slot s).isSome then "/some" else "/none"
+      | .chk c | .chk2 _ c => if st.cbit c then "/canceled" else "/ok"
       | .xio c => if (st.cio c).isSome then "/some" else "/none"
       | _ => "")
   | .w i => wpcName (st.wpc i) ++ (match st.wpc i, e with
@@ -192,10 +202,10 @@ def wakePrefix (st : St) (c : Co) : Option (List (Actor × Env)) :=
     if st.queued c then some [(.u c, .resume)]
     else match st.loc c with
       | .heldK k => (match st.kpc k with
-          | .dis s _ => if st.tslot s = none then some [(.k k, .go)] else none
+          | .dis _ _ => some [(.k k, .go)]
           | _ => none)
       | .heldW w => (match st.wpc w with
-          | .sDis s _ => if st.tslot s = none then some [(.w w, .go), (.u c, .resume)] else none
+          | .sDis _ _ => some [(.w w, .go), (.u c, .resume)]
           | _ => none)
       | _ => none
   | _ => some []
@@ -290,12 +300,23 @@ def tailCands (r : RSt) (ev : Event) : List Cand :=
   | _ =>
     if r.foreign.contains ev.actor then skipCand r ev "foreign-tail" else
     let st := r.st
-    let io := (ev.obj == flagObj && ev.op == "t.arm") || (ev.obj == coObj && ev.op == "opt.store")
+    let early := ev.obj == cioObj && ev.op == "opt.store" && (match ev.a1 with | .id t => t.startsWith "EventData" | _ => false)
+    let io := (ev.obj == flagObj && ev.op == "t.arm") || (ev.obj == coObj && ev.op == "opt.store") || early
     if !io then skipCand { r with foreign := ev.actor :: r.foreign } ev "foreign-tail" else
-    let (r, s) := sockOf r ev
+    let (r, s) := if early then sockTok r ev.a1.str else sockOf r ev
+    -- configuration discovery: a tail that registers for cancel before anything else is the code with
+    -- pending_fixes/io-stale-set_io.patch; from then on the model runs that variant (a tail created under the other assumption
+    -- and not yet started is moved to its first program point)
+    let r := if early then
+        let st := r.st
+        let kpc' := fun (i : Nat) => match st.kpc i with
+          | .start s' c' true | .store s' c' true => if s' == s && !(r.names.any fun p => p.2 == .k i) then .reg0 s' c' true else st.kpc i
+          | x => x
+        { r with st := { st with regFirst := true, kpc := kpc' } }
+      else r
     let bound := fun (i : Nat) => r.names.any fun p => p.2 == .k i
     let fresh := fun (stx : St) => (List.range stx.nk).find? fun i =>
-      !bound i && (match stx.kpc i with | .start s' _ _ | .store s' _ _ => s' == s | _ => false)
+      !bound i && (match stx.kpc i with | .start s' _ _ | .store s' _ _ | .reg0 s' _ _ => s' == s | _ => false)
     match fresh st with
     | some i => offer { r with names := (key, .k i) :: r.names } [] (.k i) .go
     | none =>
@@ -365,7 +386,7 @@ def allQuiet (r : RSt) : Option String :=
   -- a selector whose `fetch_or` was the last event of the scenario takes in the next one: on an empty slot that is a no-op
   let benign := fun (pc : WPc) => match pc with
     | .idle => true
-    | .sTake s | .xtake s | .fTake s _ => (st.slot s).isNone
+    | .sTake s | .xtake s | .fTake s _ | .fOr s _ => (st.slot s).isNone
     | _ => false
   match ws.find? fun p => !benign (st.wpc p.2) with
   | some p => some s!"worker {p.1} is still at {wpcName (st.wpc p.2)}"
